@@ -77,14 +77,15 @@ type obligation struct {
 	desc    string
 	auto    bool // generated (safety) rather than from a contract clause
 	// results
-	status  string // discharged | failed | unknown
-	solver  string
-	secs    float64
-	model   string
-	output  string
-	canary  bool // must be refuted (vacuity check)
-	soft    bool // reachability probe: an unsat answer is recorded (dead block under the contract) but is not a failure
-	inputs  []inputVar
+	status   string // discharged | failed | unknown
+	solver   string
+	secs     float64
+	model    string
+	output   string
+	canary   bool   // must be refuted (vacuity check)
+	onlyProp string // set when the generating clause is labelled with a property id: counted for that property only
+	soft     bool   // reachability probe: an unsat answer is recorded (dead block under the contract) but is not a failure
+	inputs   []inputVar
 }
 
 type firstIterPref struct {
@@ -101,36 +102,39 @@ type inputVar struct {
 
 // vc is the verification-condition generator state for one function under contract
 type vc struct {
-	p         *program
-	srt       *sorter
-	decls     []string
-	asserts   []string
-	obls      []*obligation
-	fresh     int
-	heapSorts map[string]string
-	heap0     map[string]string
-	top       *ssa.Function
-	topFC     *funcContract
-	notes     []string // abstraction notes: havocs, unsupported constructs
-	trusted   map[string]bool
-	counters  map[string]int
-	stack     []*ssa.Function
-	globals   map[*ssa.Global]string
-	strlits   map[string]string
-	inputs    []inputVar
-	maxInline int
-	safetyOnly bool
-	entry     *state
+	p                 *program
+	srt               *sorter
+	decls             []string
+	asserts           []string
+	obls              []*obligation
+	fresh             int
+	heapSorts         map[string]string
+	heap0             map[string]string
+	top               *ssa.Function
+	topFC             *funcContract
+	notes             []string // abstraction notes: havocs, unsupported constructs
+	trusted           map[string]bool
+	counters          map[string]int
+	stack             []*ssa.Function
+	globals           map[*ssa.Global]string
+	strlits           map[string]string
+	inputs            []inputVar
+	maxInline         int
+	safetyOnly        bool
+	entry             *state
 	calleesByContract map[string]bool
-	inlined   map[string]bool
-	tableRefs []tableRef
-	tablesDone map[*ssa.Global]bool
-	nonNil    map[string]bool
-	nTable    int
-	entryMeasure []string // function-level termination measure evaluated at entry
-	pendingSelf *Val
-	firstIter []firstIterPref
-	reach     []*obligation // soft reachability canaries (one per block of the top-level function)
+	inlined           map[string]bool
+	tableRefs         []tableRef
+	tablesDone        map[*ssa.Global]bool
+	nonNil            map[string]bool
+	nTable            int
+	entryMeasure      []string // function-level termination measure evaluated at entry
+	pendingSelf       *Val
+	firstIter         []firstIterPref
+	topFrame          *frame
+	callOrd           map[string]int
+	nameOverride      string
+	reach             []*obligation // soft reachability canaries (one per block of the top-level function)
 }
 
 func newVC(p *program, fn *ssa.Function, fc *funcContract) *vc {
@@ -199,7 +203,11 @@ func (x *vc) typeInv(term string, t types.Type, st *state) string {
 			app("<=", "0", app("sl_arr", term)), implies(eq(app("sl_arr", term), "0"), and(eq(app("sl_len", term), "0"), eq(app("sl_cap", term), "0"))),
 			x.refBound(app("sl_arr", term), st))
 	case sIface:
-		return and(app("<=", "0", app("itag", term)), implies(eq(app("itag", term), "0"), eq(app("ival", term), "0")))
+		inv := and(app("<=", "0", app("itag", term)), implies(eq(app("itag", term), "0"), eq(app("ival", term), "0")))
+		if x.nn("payload", typeKey(t)) {
+			inv = and(inv, implies(not(eq(app("itag", term), "0")), not(eq(app("ival", term), "0"))))
+		}
+		return inv
 	case sInt:
 		switch t.Underlying().(type) {
 		case *types.Pointer, *types.Map:
@@ -416,6 +424,9 @@ func (x *vc) oblName(class, detail string) string {
 	}
 	n := x.counters[key]
 	x.counters[key] = n + 1
+	if x.nameOverride != "" {
+		return fmt.Sprintf("%s:%s:%d", x.nameOverride, key, n)
+	}
 	return fmt.Sprintf("%s:%s:%d", fnKey(x.top), key, n)
 }
 
@@ -425,8 +436,40 @@ func (x *vc) oblige(st *state, class, detail, goal, pos, desc string, auto bool)
 	}
 	o := &obligation{name: x.oblName(class, detail), class: class, fn: fnKey(x.top), goal: goal, guard: st.guard,
 		nDecl: len(x.decls), nAssert: len(x.asserts), pos: pos, desc: desc, auto: auto}
+	// a clause label of the form "C04:name" or "C04" makes the obligation belong to that property only
+	for _, part := range strings.Split(detail, ".") {
+		if p := tagProp(part); p != "" {
+			o.onlyProp = p
+		}
+	}
+	if p := tagProp(detail); p != "" {
+		o.onlyProp = p
+	}
 	x.obls = append(x.obls, o)
 	return o
+}
+
+func dotTag(tag string) string {
+	if tag == "" {
+		return ""
+	}
+	return "." + tag
+}
+
+// tagProp extracts a property id from a clause label ("C04:else-branch" -> "C04")
+func tagProp(tag string) string {
+	if k := strings.Index(tag, ":"); k >= 0 {
+		tag = tag[:k]
+	}
+	if len(tag) >= 3 && tag[0] == 'C' {
+		for _, c := range tag[1:] {
+			if c < '0' || c > '9' {
+				return ""
+			}
+		}
+		return tag
+	}
+	return ""
 }
 
 // check = obligation, then assume it for the continuation (standard assert-then-assume)
@@ -443,25 +486,25 @@ func (x *vc) check(st *state, class, detail, goal, pos, desc string) {
 // Frames and body execution
 
 type frame struct {
-	fn      *ssa.Function
-	fc      *funcContract
-	vals    map[ssa.Value]Val
-	params  map[string]Val
-	named   map[string][]namedDef
-	depth   int
-	entry   *state // state at function entry (for old())
-	top     bool
-	loops   []*loopInfo
+	fn       *ssa.Function
+	fc       *funcContract
+	vals     map[ssa.Value]Val
+	params   map[string]Val
+	named    map[string][]namedDef
+	depth    int
+	entry    *state // state at function entry (for old())
+	top      bool
+	loops    []*loopInfo
 	blockOut map[int]*state
 	edgeCond map[[2]int]string
-	rets    []retInfo
-	results []Val // for contract evaluation at exit
+	rets     []retInfo
+	results  []Val // for contract evaluation at exit
 	freeVars map[string]Val
 }
 
 type namedDef struct {
-	v   ssa.Value
-	blk *ssa.BasicBlock
+	v    ssa.Value
+	blk  *ssa.BasicBlock
 	addr bool
 }
 
@@ -472,13 +515,13 @@ type retInfo struct {
 }
 
 type loopInfo struct {
-	header  *ssa.BasicBlock
-	ordinal int
-	body    map[int]bool
-	backs   []*ssa.BasicBlock
+	header   *ssa.BasicBlock
+	ordinal  int
+	body     map[int]bool
+	backs    []*ssa.BasicBlock
 	variant0 string
-	invEnv  *cenv
-	phiVals map[*ssa.Phi]Val
+	invEnv   *cenv
+	phiVals  map[*ssa.Phi]Val
 }
 
 func (x *vc) newFrame(fn *ssa.Function, depth int) *frame {
@@ -633,9 +676,9 @@ func (x *vc) mergeStates(ins []*state, conds []string) *state {
 }
 
 type execResult struct {
-	vals   []Val
-	st     *state
-	noRet  bool // function never returns normally
+	vals  []Val
+	st    *state
+	noRet bool // function never returns normally
 }
 
 // execBody symbolically executes fn's body from state st with the frame's params bound.
@@ -703,7 +746,7 @@ func (x *vc) execBody(fr *frame, st0 *state) execResult {
 		if li != nil {
 			x.loopHeader(fr, st, li)
 		}
-		if b.Index != 0 && st.guard != "false" {
+		if b.Index != 0 && st.guard != "false" && (fr.top || probeInlined) {
 			kind := "block"
 			if len(b.Instrs) > 0 {
 				if _, isPanic := b.Instrs[len(b.Instrs)-1].(*ssa.Panic); isPanic {
@@ -807,7 +850,7 @@ func (x *vc) loopHeader(fr *frame, st *state, li *loopInfo) {
 	// 1. invariants hold on entry
 	for k, inv := range invs {
 		g := x.evalBool(env, inv.expr)
-		x.oblige(st, "inv-entry", fmt.Sprintf("%sloop%d.%d", x.framePrefix(fr), li.ordinal, k), g, pos, "loop invariant holds on entry: "+inv.text, false)
+		x.oblige(st, "inv-entry", fmt.Sprintf("%sloop%d.%d%s", x.framePrefix(fr), li.ordinal, k, dotTag(inv.tag)), g, pos, "loop invariant holds on entry: "+inv.text, false)
 	}
 	entryPhis := map[*ssa.Phi]Val{}
 	for _, instr := range li.header.Instrs {
